@@ -4,6 +4,8 @@
 -/
 import PetlProofs.Sort
 
+import Petl.Ops
+
 namespace Petl.C05
 open Petl
 
@@ -76,6 +78,31 @@ theorem mergesort_eq_sort_cat (idx : List Nat) (reverse : Bool) (tables : List (
     mergeSorted (rowLe idx reverse) (tables.map (fun t => t.mergeSort (rowLe idx reverse)))
       = (tables.flatten).mergeSort (rowLe idx reverse) :=
   kmerge_sorted_pieces _ (rowLe_totalPre idx reverse) tables
+
+/-- the same for tables with different fields (the behaviour repaired in /repo 2f346d7, `Petl.mergesortH`): each table
+    is rearranged to the output header before it is sorted, so the merge is the sort of what `cat` delivers —
+    whatever the key (positional, none, a field some table lacks), `missing` and the buffer size -/
+theorem mergesort_differing_fields_eq_sort_cat (idx : List Nat) (reverse : Bool) (bs : Option Nat)
+    (hbs : ∀ b, bs = some b → 1 ≤ b) (outhdr : Row) (missing : Val) (ts : List Table) :
+    mergesortH idx reverse bs outhdr missing ts
+      = ((ts.map (catRows outhdr missing)).flatten).mergeSort (rowLe idx reverse) := by
+  unfold mergesortH
+  have h := mergesort_eq_sort_cat idx reverse (ts.map (catRows outhdr missing))
+  rw [List.map_map] at h
+  rw [← h]
+  congr 1
+  apply List.map_congr_left
+  intro t _
+  simp only [Function.comp]
+  cases bs with
+  | none => simp [sortRows]
+  | some b => exact sortRows_eq_mergeSort _ (rowLe_totalPre idx reverse) b (hbs b rfl) _
+
+/-- … and `cat` delivers exactly that concatenation -/
+theorem cat_rows (missing : Val) (ts : List Table) :
+    catView missing none ts
+      = .ok (catHeader (ts.map (fun t => t.headD [])) ::
+              (ts.map (catRows (catHeader (ts.map (fun t => t.headD []))) missing)).flatten) := rfl
 
 /-- with presorted inputs the merge alone already gives the sort of the concatenation -/
 theorem mergesort_presorted (idx : List Nat) (reverse : Bool) (tables : List (List Row))
